@@ -28,6 +28,9 @@ func init() {
 			{ID: "C03.R7", Floor: 1, Run: c03r7, Text: "no wrapping bound: in Query methods no comparison operand is an unsigned subtraction `x - c` (c > 0) unless x ≥ c is known on the path; `idx <= end-1` with end == 0 wraps and accepts every index (fixture keeps the rule non-vacuous)"},
 			{ID: "C03.R8", Floor: 4, Run: batchParallelAppends, Text: "parallel slices of a batch: the recording method appends to every per-range slice on every path (a range that is merged into its predecessor loses its source table)"},
 			{ID: "C03.R9", Floor: 1, Run: batchRowFromStart, Text: "rows of a batch table are offset by the recorded StartIndex wherever a Query method reads an entity from batchArchetypes.Archetype[j]"},
+			{ID: "C03.R10", Floor: 7, Run: c04r1, Text: "mask operations are word-uniform (= C04.R1): filter matching decides which tables a query visits"},
+			{ID: "C03.R11", Floor: 9, Run: c04r2, Text: "mask operations have their set semantics (= C04.R2)"},
+			{ID: "C03.R12", Floor: 6, Run: c09r2, Text: "lock typestate (= C09.R2): the lock bit a query constructor receives is the one the query releases"},
 		},
 	})
 }
